@@ -22,6 +22,7 @@ API_KINDS = [
     "ok",
     "raise_before",
     "raise_after_partial",
+    "raise_after_optimal",
     "status_notsolved",
     "status_infeasible",
     "status_unbounded",
@@ -129,6 +130,20 @@ class SimSolver(pulp.LpSolver):
             info["partial_assigned"] = n
             env.end_solve(info, delivered=False, how="raise")
             raise pulp.PulpSolverError("sim: injected failure after a partial result")
+        if kind == "raise_after_optimal":
+            # a solver that fails late: it has already recorded an Optimal status (and none, some or all of the
+            # correct values) on the problem when it raises PulpSolverError, e.g. while copying the solution
+            assign = fault.get("assign", "none")
+            n = 0
+            for pos, v in enumerate(variables):
+                if assign == "full" or (assign == "partial" and _mask(pos, fault.get("partial", 0))):
+                    v.varValue = float(chosen[v.name])
+                    n += 1
+            lp.assignStatus(pulp.LpStatusOptimal)
+            events.fired("api.raise_after_optimal." + assign)
+            info["partial_assigned"] = n
+            env.end_solve(info, delivered=False, how="raise-late")
+            raise pulp.PulpSolverError("sim: injected failure after the status was recorded")
         if kind in STATUS_OF_KIND:
             assign = fault.get("assign", "none")
             # stale / misleading values: every region claims the *wrong* levels, so that a reader
